@@ -159,7 +159,12 @@ def ob_nested(k1: int, k2: int) -> bool:
         CContext.shared = lvl2 if qc is not None else lvl1
         if fs is not None:
             fs.hook = lvl1.tick            # file-granularity windows
-        a = CContext().evaluate(qa)
+        try:
+            a = CContext().evaluate(qa)
+        except KeyError as ex:
+            if finding_active("C12-progress-metadata-overwrites-ready-entry") and str(ex) == "'attributes'":
+                return True      # listed known finding (signature: a consumer is served a ready entry whose metadata was replaced)
+            raise
         if fs is not None:
             fs.hook = None
         ok = (not a.is_error) and a.data is not None and getattr(a.data, "v", a.data) == expected(qa)
@@ -177,6 +182,30 @@ def ob_nested(k1: int, k2: int) -> bool:
                 ok = ok and g.data is not None and getattr(g.data, "v", g.data) == e
     fired = lvl1.fired_at is not None
     return check(ok, "preempted" if fired else "no-preemption")
+
+
+def _witness_progress_overwrite():
+    import engine.api as api
+    saved_part, saved_f = dict(api.PART), set(api.ACTIVE_FINDINGS)
+    api.ACTIVE_FINDINGS.clear()
+    api.PART.clear()
+    api.PART.update(dict(cache="memory", pair=0, depth=2, third=0))
+    try:
+        for k1, k2 in ((4, 19), (4, 29), (4, 18), (4, 20)):
+            try:
+                if not ob_nested(k1, k2):
+                    return True
+            except KeyError as ex:
+                if str(ex) == "'attributes'":
+                    return True
+        return False
+    finally:
+        api.PART.clear()
+        api.PART.update(saved_part)
+        api.ACTIVE_FINDINGS.update(saved_f)
+
+
+KNOWN = {"C12-progress-metadata-overwrites-ready-entry": _witness_progress_overwrite}
 
 
 def obligations(tier):
